@@ -127,6 +127,7 @@ class Monitor:
         import skepticoin.wallet as wmod
         import skepticoin.consensus as cons
         world = gen.World(rng, nkeys=10)
+        world.odd_reward_prob = rng.choice([0.0, 0.3])
         world.grow(rng.choice([3, 6, 10, 16]), rng, tx_prob=0.7, bias="linear" if rng.random() < 0.5 else "mixed")
         nk = rng.randint(1, 8)
         mine = rng.sample(world.keys, nk)
